@@ -453,10 +453,7 @@ func (ex *Exec) convert(st *State, t *ssa.Convert) {
 	case fs == SSlice && ts == SStr:
 		st.vals[t] = st.stringOfBytes(st.heap, x)
 	case fs == SInt && ts == SStr:
-		st.sc.declFun("gstr.ofrune", []Sort{SInt}, SStr)
-		r := app(SStr, "gstr.ofrune", x)
-		st.sc.assert(T(SBool, "(and (<= 1 (gstr.len %[1]s)) (<= (gstr.len %[1]s) 4) (=> (and (<= 0 %[2]s) (< %[2]s 128)) (and (= (gstr.len %[1]s) 1) (= (gstr.at %[1]s 0) %[2]s))) (=> (or (< %[2]s 0) (>= %[2]s 128)) (>= (gstr.len %[1]s) 2)))", r.S, x.S))
-		st.vals[t] = r
+		st.vals[t] = st.runeString(x)
 	case fs == ts:
 		st.vals[t] = x
 	default:
